@@ -711,12 +711,18 @@ def run_pg_on_sqlite(ops, tables, options=None, return_sql=False):
     return out
 
 
-def run_polars(ops, tables, lazy=False):
+def run_polars(ops, tables, lazy=False, eager_model=False):
+    """`eager_model=True`: evaluate with PolarsModel(use_lazy_eval=False), the model option the default registration
+    never uses (the default model converts every frame to a LazyFrame first)"""
     try:
         with warnings.catch_warnings():
             warnings.simplefilter("ignore")
             frames = tables_to_polars(tables, lazy=lazy)
-            res = ops.eval(frames)
+            if eager_model:
+                import data_algebra.polars_model as _pm
+                res = ops.eval(frames, data_model=_pm.PolarsModel(use_lazy_eval=False))
+            else:
+                res = ops.eval(frames)
             return {"ok": frame_to_table(res)}
     except BaseException as e:  # polars raises pyo3 panics as BaseException subclasses
         if isinstance(e, (KeyboardInterrupt, SystemExit)):
@@ -1828,7 +1834,7 @@ class Gen:
             if cand:
                 t = r.choice(cand)
                 if ordered:
-                    order = [t] + order[:2]
+                    order = [t] + order[-2:]      # the unique column that makes the order total is the last one
                     reverse = [c for c in reverse if c in order] + ([t] if r.random() < 0.35 else [])
                 elif st.ci[t].kind in ("str", "int", "bool"):
                     part = part + [t]
